@@ -125,39 +125,4 @@ Definition spec_op (h : heap) (o : op) : verdict :=
     end
   end.
 
-(* does the walk enter a package from a hash that was itself reached through another hash hop of
-   the same hash walk?  (hashutils.go continues there with dotpaths[1:], see PkgProofs) *)
-Fixpoint crosses (h : heap) (c : container) (path : list name) (hdepth : nat) : bool :=
-  match path with
-  | [] => false
-  | n :: rest =>
-    match c with
-    | CPkg pn sc =>
-      match stack_lookup h sc n with
-      | None => false
-      | Some (v, _) =>
-        match rest with
-        | [] => false
-        | _ :: _ =>
-          match v with
-          | VStack true pn' sc' => crosses h (CPkg pn' sc') rest 0
-          | VHash id => if public n then crosses h (CHash id) rest 0 else false
-          | _ => false
-          end
-        end
-      end
-    | CHash id =>
-      match rest with
-      | [] => false
-      | _ :: _ =>
-        match hash_get h id n with
-        | Some (VHash id') => crosses h (CHash id') rest (S hdepth)
-        | Some (VStack true pn sc) =>
-          match hdepth with O => crosses h (CPkg pn sc) rest 0 | S _ => true end
-        | _ => false
-        end
-      end
-    end
-  end.
-
 End WithUpper.
